@@ -257,8 +257,9 @@ def run_case(data):
                 w.stop = True
             check('reset_stream', sid, o, stream_expectation(sid, 'reset_stream'))
         elif op == 'close':
-            o = s.call('close_connection', ch.pick([0, 1, 2**32 - 1]), ch.pick([None, b'', b'bye']),
-                       ch.pick([None, 0, sid]))
+            # debug data of any length is well-typed; 8 + 16376 bytes fill a default-sized frame exactly
+            extra = ch.pick([None, b'', b'bye', b'bye', b'd' * 16376, b'd' * 16377, b'd' * 20000])
+            o = s.call('close_connection', ch.pick([0, 1, 2**32 - 1]), extra, ch.pick([None, 0, sid]))
             r.step('close_connection', o.brief())
             if o.ok:
                 m.closed = 'sent-goaway'
@@ -270,10 +271,13 @@ def run_case(data):
             check('update_settings', None, o)
         elif op == 'altsvc':
             form = ch.pick(['origin', 'stream', 'both', 'neither', 'str-field'])
+            # field values of any length are well-typed; 2 + origin + field bytes must fit one frame
+            field = ch.pick([b'h2=":1"', b'h2=":1"', b'h2=":1"', b'f' * 16371, b'f' * 16372, b'f' * 16382, b'f' * 16383,
+                             b'f' * 30000])
             if form == 'origin':
-                o = s.call('advertise_alternative_service', b'h2=":1"', origin=b'example.com')
+                o = s.call('advertise_alternative_service', field, origin=b'example.com')
             elif form == 'stream':
-                o = s.call('advertise_alternative_service', b'h2=":1"', stream_id=sid)
+                o = s.call('advertise_alternative_service', field, stream_id=sid)
                 if not o.ok and isinstance(o.exc, h2.exceptions.H2Error) and not client:
                     unknown.add(sid)
             elif form == 'both':
@@ -391,5 +395,21 @@ def _f15():
     return ['C29:undocumented-exception:frame-filling-block'] if bad else []
 
 
+def _f34():
+    keys = []
+    s = Solo(False)
+    s.start()
+    o = s.call('advertise_alternative_service', b'f' * 20000, origin=b'example.com')
+    if (not o.ok and not o.is_h2error()) or (not o.ok and o.out):
+        keys.append('C29:undocumented-exception:%s:advertise_alternative_service:origin' % o.exc_name)
+    s = Solo(True)
+    s.start()
+    o = s.call('close_connection', 0, b'd' * 20000)
+    if (not o.ok and not o.is_h2error()) or (not o.ok and o.out):
+        keys.append('C29:undocumented-exception:%s:close_connection' % o.exc_name)
+    return keys
+
+
 FINDINGS = {'F16-keyerror-end-stream-increment': _f16, 'F07-empty-header-list-indexerror': _f07,
-            'F15-first-header-frame-overhead-not-reserved': _f15}
+            'F15-first-header-frame-overhead-not-reserved': _f15,
+            'F34-oversize-goaway-or-altsvc-assertion-after-queuing': _f34}
